@@ -96,7 +96,7 @@ func cases(tier string, seed int64) []eng.Case {
 func init() {
 	eng.Register(&eng.Monitor{
 		ID: "C02", Level: "exploration",
-		Rule: "cases = (operation family, logN, Q prime sizes (1..6 primes), P prime sizes (0..3 primes)); inside a case every (levelQ, levelP) pair / number of consecutive rescalings / digit index is walked and every coefficient of boundary-pattern inputs (multiples of the divisor +-{0..3}, half-multiples +-{0..3}, +-Q/2, +-Q/4, small norm, uniform) is compared with math/big integer division or centred lifting. distinct key = (family, entry point, chain sizes, levelQ, levelP, nb/digit); non-trivial = the input vector contains boundary values (always true by construction) and the chain has >= 2 moduli or unequal sizes. The x/ families (c02_ext.go) draw a second set of configurations (N from 8, standard or conjugate-invariant ring, 61-bit primes inside Q, P of up to 8 primes, source bases of up to 32 primes, one of 34) and walk a sample of the level table through the remaining exported entry points (ShallowCopy of the extender and of the evaluator, ModUpExact + GenModUpConstants, rlwe.Evaluator.ModDown in its 4 domain combinations and at levelP = -1, GadgetProductLazy / Hoisted / HoistedLazy, ExtendBasisSmallNormAndCenterNTTMontgomery, MaskVec, DecomposeAndSplit at levelP = -1 under a ring P) with receivers aliased to the operand, receivers of minimal size, nbRescales = 0, inputs that make the numerators of the base conversion extreme, the documented refusals; their distinct key additionally carries the entry point, the receiver mode and the object (constructor / ShallowCopy) used.",
+		Rule:  "cases = (operation family, logN, Q prime sizes (1..6 primes), P prime sizes (0..3 primes)); inside a case every (levelQ, levelP) pair / number of consecutive rescalings / digit index is walked and every coefficient of boundary-pattern inputs (multiples of the divisor +-{0..3}, half-multiples +-{0..3}, +-Q/2, +-Q/4, small norm, uniform) is compared with math/big integer division or centred lifting. distinct key = (family, entry point, chain sizes, levelQ, levelP, nb/digit); non-trivial = the input vector contains boundary values (always true by construction) and the chain has >= 2 moduli or unequal sizes. The x/ families (c02_ext.go) draw a second set of configurations (N from 8, standard or conjugate-invariant ring, 61-bit primes inside Q, P of up to 8 primes, source bases of up to 32 primes, one of 34) and walk a sample of the level table through the remaining exported entry points (ShallowCopy of the extender and of the evaluator, ModUpExact + GenModUpConstants, rlwe.Evaluator.ModDown in its 4 domain combinations and at levelP = -1, GadgetProductLazy / Hoisted / HoistedLazy, ExtendBasisSmallNormAndCenterNTTMontgomery, MaskVec, DecomposeAndSplit at levelP = -1 under a ring P) with receivers aliased to the operand, receivers of minimal size, nbRescales = 0, inputs that make the numerators of the base conversion extreme, the documented refusals; their distinct key additionally carries the entry point, the receiver mode and the object (constructor / ShallowCopy) used.",
 		Cases: cases,
 		Assumptions: []string{
 			"math/big is the model of integer arithmetic",
